@@ -102,6 +102,19 @@ impl Engine for HrEngine {
                 l.push(format!("plan {}", plan.join(",")));
                 l.push("reload".into());
                 l.push("dump".into());
+                // second round: `a` is rewired (some look-ups dropped); what it no longer reads must no longer reload it
+                let rounds = if rng.chance(1, 2) { 2 } else { 1 };
+                for round in 0..rounds {
+                if round == 1 {
+                    let keep: Vec<String> = plan.iter().filter(|_| rng.chance(1, 2)).cloned().collect();
+                    let mut sc = vec!["1".to_string()];
+                    sc.extend(keep.iter().cloned());
+                    l.push(format!("src.put {} {} {} 0", hexs("a"), hexs("s"), hexs(&sc.join(" "))));
+                    l.push(format!("notify {}", ev_file("a", "s")));
+                    l.push("reload".into());
+                    l.push(format!("plan {}", keep.join(",")));
+                    l.push("dump".into());
+                }
                 // edit + notify exactly one file at a time
                 for leaf in leaves.iter() {
                     for ext in ["s", "a", "r"] {
@@ -113,6 +126,7 @@ impl Engine for HrEngine {
                         l.push("reload".into());
                         l.push("dump".into());
                     }
+                }
                 }
             }
             // ---------------------------------------------------------------- C10: non-reloadable things
@@ -129,7 +143,7 @@ impl Engine for HrEngine {
                 for _ in 0..rng.range(6, if tier == Tier::Thorough { 40 } else { 18 }) {
                     let id = *rng.pick(&["a", "b", "c"]);
                     let h = hexs(id);
-                    let t = *rng.pick(&["S0", "N0", "M20", "I"]);
+                    let t = *rng.pick(&["S0", "N0", "M20", "I", "AN", "AS"]);
                     let lt = if t == "I" { "S0" } else { t };
                     let next = match rng.below(14) {
                         0..=2 => format!("load {lt} {h}"),
